@@ -200,6 +200,138 @@ fn check_hex(s: &[u8]) -> Option<String> {
   }
 }
 
+// ---------------------------------------------------------------- integer literals at every position
+
+#[allow(dead_code)]
+mod intspec {
+  include!(concat!(env!("CARGO_MANIFEST_DIR"), "/../kani/pest_bridge_spec.rs"));
+}
+
+/// Parse `doc` and pull one number out of the AST with `get`; Err(first line) when rejected.
+fn parse_and<T>(doc: &str, get: impl Fn(&CDDL) -> Option<T> + std::panic::UnwindSafe) -> Result<Result<Option<T>, String>, String> {
+  let d = doc.to_string();
+  catch(move || match cddl::parser::cddl_from_str(&d, false) {
+    Ok(c) => Ok(get(&c)),
+    Err(e) => Err(e.lines().next().unwrap_or("").to_string()),
+  })
+}
+
+fn first_t1<'a, 'c>(c: &'c CDDL<'a>) -> Option<&'c Type1<'a>> {
+  match c.rules.first()? {
+    Rule::Type { rule, .. } => rule.value.type_choices.first().map(|tc| &tc.type1),
+    _ => None,
+  }
+}
+
+fn t2_int(t: &Type2) -> Option<i128> {
+  match t {
+    Type2::UintValue { value, .. } => Some(*value as i128),
+    Type2::IntValue { value, .. } => Some(*value as i128),
+    _ => None,
+  }
+}
+
+/// Every position an integer literal can occupy, with the value range that position can represent.
+/// Returns Some(reason) when the stored value differs from the RFC value, an unrepresentable literal is
+/// accepted, or a representable one is rejected.
+fn check_int_positions(lit: &str) -> Option<String> {
+  let neg = lit.starts_with('-');
+  let want_i: Option<i128> = if neg { intspec::spec_uint(&lit[1..]).map(|m| -(m as i128)) } else { intspec::spec_uint(lit).map(|m| m as i128) };
+  let fits = |lo: i128, hi: i128| want_i.filter(|v| *v >= lo && *v <= hi);
+  let usz = fits(0, usize::MAX as i128);
+  let isz = fits(isize::MIN as i128, isize::MAX as i128);
+  let any_int = if neg { isz } else { usz };
+  let mut cases: Vec<(String, Option<i128>, Box<dyn Fn(&CDDL) -> Option<i128> + std::panic::UnwindSafe>)> = vec![
+    (format!("a = {}\n", lit), any_int, Box::new(|c| first_t1(c).and_then(|t| t2_int(&t.type2)))),
+    (format!("a = {}..{}\n", lit, lit), any_int, Box::new(|c| first_t1(c).and_then(|t| t2_int(&t.type2)))),
+    (format!("a = 0..{}\n", lit), any_int, Box::new(|c| first_t1(c).and_then(|t| t.operator.as_ref()).and_then(|o| t2_int(&o.type2)))),
+    (format!("a = uint .size {}\n", lit), any_int, Box::new(|c| first_t1(c).and_then(|t| t.operator.as_ref()).and_then(|o| t2_int(&o.type2)))),
+    (format!("a = uint .lt {}\n", lit), any_int, Box::new(|c| first_t1(c).and_then(|t| t.operator.as_ref()).and_then(|o| t2_int(&o.type2)))),
+  ];
+  if !neg {
+    cases.push((
+      format!("a = #6.{}(int)\n", lit),
+      fits(0, u64::MAX as i128),
+      Box::new(|c| first_t1(c).and_then(|t| match &t.type2 { Type2::TaggedData { tag, .. } => tag.as_ref().and_then(|x| x.as_literal()).map(|v| v as i128), _ => None })),
+    ));
+    cases.push((
+      format!("a = [{}*{} int]\n", lit, lit),
+      usz,
+      Box::new(|c| {
+        first_t1(c).and_then(|t| match &t.type2 {
+          Type2::Array { group, .. } => group.group_choices.first().and_then(|gc| gc.group_entries.first()).and_then(|(ge, _)| match ge {
+            GroupEntry::TypeGroupname { ge, .. } => ge.occur.as_ref().and_then(|o| match o.occur {
+              Occur::Exact { lower, upper, .. } if lower == upper => lower.map(|v| v as i128),
+              _ => None,
+            }),
+            GroupEntry::ValueMemberKey { ge, .. } => ge.occur.as_ref().and_then(|o| match o.occur {
+              Occur::Exact { lower, upper, .. } if lower == upper => lower.map(|v| v as i128),
+              _ => None,
+            }),
+            _ => None,
+          }),
+          _ => None,
+        })
+      }),
+    ));
+    cases.push((
+      format!("a = {{ {} => int }}\n", lit),
+      usz,
+      Box::new(|c| {
+        first_t1(c).and_then(|t| match &t.type2 {
+          Type2::Map { group, .. } => group.group_choices.first().and_then(|gc| gc.group_entries.first()).and_then(|(ge, _)| match ge {
+            GroupEntry::ValueMemberKey { ge, .. } => match ge.member_key.as_ref()? {
+              MemberKey::Value { value: cddl::token::Value::UINT(v), .. } => Some(*v as i128),
+              MemberKey::Value { value: cddl::token::Value::INT(v), .. } => Some(*v as i128),
+              MemberKey::Type1 { t1, .. } => t2_int(&t1.type2),
+              _ => None,
+            },
+            _ => None,
+          }),
+          _ => None,
+        })
+      }),
+    ));
+  }
+  for (doc, want, get) in cases {
+    match parse_and(&doc, get) {
+      Err(p) => return Some(format!("parser panicked on {:?}: {}", doc, p)),
+      Ok(Ok(got)) => match (want, got) {
+        (Some(w), Some(g)) if w == g => {}
+        (Some(w), Some(g)) => return Some(format!("{:?}: literal {} is stored as {}, RFC value is {}", doc.trim(), lit, g, w)),
+        (None, Some(g)) => return Some(format!("{:?}: literal {} is not representable at this position but is accepted as {}", doc.trim(), lit, g)),
+        (_, None) => return Some(format!("{:?}: accepted, but the literal was not found where expected in the AST", doc.trim())),
+      },
+      Ok(Err(e)) => {
+        if let Some(w) = want {
+          return Some(format!("{:?}: literal {} (value {}) is rejected: {}", doc.trim(), lit, w, e));
+        }
+      }
+    }
+  }
+  None
+}
+
+fn int_literals() -> Vec<String> {
+  let mut mags: Vec<u128> = vec![0, 1, 9, 10, 23, 24, 255, 256, 65535, 65536];
+  for bits in [31u32, 32, 63, 64] {
+    let p = 1u128 << bits;
+    for d in [-1i128, 0, 1] {
+      mags.push((p as i128 + d) as u128);
+    }
+  }
+  mags.push(20496382304121724020);
+  mags.push(0xffff_ffff_ffff_ffff_f);
+  let mut out = vec![];
+  for v in mags {
+    for s in [format!("{}", v), format!("0x{:x}", v), format!("0X{:X}", v), format!("0b{:b}", v), format!("0B{:b}", v), format!("0x00{:x}", v)] {
+      out.push(s.clone());
+      out.push(format!("-{}", s));
+    }
+  }
+  out
+}
+
 fn strings(alpha: &[u8], maxlen: usize, mut f: impl FnMut(&[u8]) -> bool) -> bool {
   let mut idx: Vec<usize> = vec![];
   loop {
@@ -273,6 +405,14 @@ pub fn find(args: &[String]) -> i32 {
       }
     }
   }
+  if which == "all" || which == "ints" {
+    for lit in int_literals() {
+      tried += 1;
+      if let Some(why) = check_int_positions(&lit) {
+        return hit(tried, "int", &lit, &why);
+      }
+    }
+  }
   if which == "all" || which == "bytes" {
     let mut found: Option<(String, String)> = None;
     strings(b"AQJg+/-_=", if thorough { 6 } else { 5 }, |s| {
@@ -333,6 +473,7 @@ pub fn replay(args: &[String]) -> i32 {
   let input = w["input"].as_str().unwrap();
   let r = match w["kind"].as_str().unwrap() {
     "text" => check_text(input),
+    "int" => check_int_positions(input),
     "b64" => check_b64(input.as_bytes()),
     _ => check_hex(input.as_bytes()),
   };
